@@ -16,14 +16,31 @@ THEOREMS = ["ssRight_iff", "ssLeft_iff", "extent_var_correct", "one_le_ssRight",
             "gsFetch_empty", "parseRegion_bounds", "parseRegion_defaults", "lift_run", "extent_table_correct",
             "extent_table_empty", "regionToExtent_ok", "gsFetchAbs_ok", "regionToExtentIdx_eq",
             "pixelsFetch_correct", "pixelsFetch_ok", "offset_ok", "mem_binsSlice", "binsSlice_labels",
-            "regionOfTriple_ok", "regionOfTriple_reject", "regionOfTriple_unknown", "coolerExtent_ok"]
-LEVELS = {"table": "top", "extent_unit": "unit", "float_division": "unit", "bounds": "unit"}
+            "regionOfTriple_ok", "regionOfTriple_reject", "regionOfTriple_unknown", "coolerExtent_ok",
+            # the one-pass forms the driver evaluates ARE the L0 verdicts (tables with 10^5 bins)
+            "idsWhere_eq", "overlappingF_eq", "containingF_eq", "selOkF_eq", "runOkF_eq", "pxSelOkF_eq", "offsetOkF_eq",
+            # a sorted column searched one chunk at a time: when a search may stop after / skip a chunk
+            "ssLeft_append", "ssRight_append", "ssLeft_stop", "ssRight_stop", "ssLeft_skip", "ssRight_skip"]
+LEVELS = {"table": "top", "bigtable": "top", "rewrite": "top", "extent_unit": "unit", "float_division": "unit", "bounds": "unit"}
 DESCRIBE = {
     "table": "one created cooler per bin table; for EVERY (chrom,s,e), 0<=s<=e<=L, as tuple / 'c:s-e' string / open-ended "
              "(c,s,None) / bare name: Cooler.extent, Cooler.offset, bins().fetch (labels+rows), pixels().fetch (rows+labels), "
              "GenomeSegmentation.fetch, bedslice judged by the Lean L0 verdicts `runOk`/`selOk`/`offsetOk`/`pxSelOk` "
              "(exactly the `overlapping` bins; empty range: at most the one bin containing the position; never another "
-             "chromosome); matrix(balance=False).fetch(r1,r2) == Lean `specDense` on the two reported extents",
+             "chromosome); matrix(balance=False).fetch(r1,r2) == Lean `specDense` on the two reported extents. (The driver "
+             "evaluates the verdicts through their one-pass forms `runOkF` … — theorems `runOkF_eq`, `selOkF_eq`, `offsetOkF_eq`, "
+             "`pxSelOkF_eq`: equal on every input)",
+    "bigtable": "the `table` check on tables with MANY bins — one chromosome of more than 2^15, 2^16, 2^17 bins (variable width; fixed "
+                "width with a short last bin; one width but a longer last bin) beside small ones, in all three file layouts: ranges "
+                "whose starts and ends lie exactly ON the bin boundaries at in-chromosome indexes 2^k - 1, 2^k, 2^k + 1 (k = 12..17), "
+                "10^4 / 10^5 +- 1, the chromosome ends and random indexes, one base pair before / after them, empty ranges on them "
+                "and a few ranges from / to the chromosome ends, in every region form (also 'chr:1,234-5,678'), through extent / "
+                "offset / bins().fetch / pixels().fetch / GenomeSegmentation.fetch / bedslice / matrix().fetch(r1, r2); same verdicts",
+    "rewrite": "a collection is written OVER an earlier one at the same URI (file root; nested group; nested group beside a "
+               "different root collection): create_cooler(mode='a'), merge_coolers(mode='a') of two coolers, coarsen_cooler of a "
+               "finer cooler (it appends by default) — fixed width b over variable, variable over fixed, b over b', fewer bins "
+               "over more, other chromosome sets — and after EVERY step every access path of `table` is queried: every answer must "
+               "be that of the table stored NOW (for merge / coarsen outputs: the bin and pixel tables as read back whole)",
     "extent_unit": "cooler.core.region_to_extent / region_to_offset on dict-backed stored columns (chrom_offset, bins/start) with "
                    "the bin size get_binsize infers (and None on uniform tables) == Lean `regionToExtentIdx`, every region",
     "float_division": "region_to_extent fixed-width arithmetic (float64 floor/ceil of start/binsize) == Lean `extentFixed` "
@@ -31,7 +48,15 @@ DESCRIBE = {
     "bounds": "util.parse_region / Cooler.extent / bins().fetch on in- and out-of-bounds triples (s,e in -1..L+1, None; unknown "
               "chromosome): accepted or refused exactly as Lean `regionOfTriple` (= parseRegion_bounds), accepted values equal",
 }
-RULE = ("tables for the file-based `table` check: quick = EVERY valid segmentation of <=2 chromosomes of length <=5, every "
+RULE = ("bigtable: quick 3 variable-width (2^17, 2^16, 2^15 + a few bins) + 2 fixed-width + 1 longer-last-bin tables (thorough 14 + 6 + "
+        "3), ~200-300 regions each (see bigtable), every 6th region through every access path and form, the others through "
+        "Cooler.extent + one bin-frame fetcher; the theorems (L1 = L0) are re-evaluated on every 3rd region, every observation is "
+        "judged by L0. rewrite: EVERY ordered pair (first, second) of 8 small tables (fixed 4 / 4 with short last bins / 2 / 3, "
+        "variable x2, longer last bin, one-bin chromosomes), the second written by create_cooler(mode='a') at the root and in one "
+        "nested place and, every other pair each, by merge / coarsen in one place (thorough: all pairs x 3 ways x 3 places), plus 16 "
+        "(120) seeded chains of 3-4 random tables with the way of writing drawn per step; per step every range between two bin "
+        "edges, an off-edge variant of each, empty ranges on and next to every edge (a fifth of them on the first, fresh, collection). "
+        "tables for the file-based `table` check: quick = EVERY valid segmentation of <=2 chromosomes of length <=5, every "
         "one-chromosome table of length 6 and a seeded 7% of the two-chromosome tables with a length-6 chromosome; thorough = "
         "EVERY one of length <=6 plus every chromosome of length 7 (8) alone and paired in both orders with every partner of length "
         "<=5 (<=3); `extent_unit` covers EVERY segmentation of <=2 chromosomes of length <=6 (quick) / <=8 (thorough); plus the "
@@ -81,6 +106,26 @@ def chrom_lens(bins):
     return [L[c] for c in range(nchroms(bins))]
 
 
+BIG = 5000  # tables with more bins than this: compact case form, sampled regions, trimmed re-evaluation of the theorems
+
+
+def expand_big(spec):
+    """compact description of a table with MANY bins -> [[chrom, start, end], …]; `spec` = one `[nbins, pattern, last]` per
+    chromosome: bin widths are `pattern` repeated (cut to nbins), the last bin's width is `last` unless None"""
+    bins = []
+    for c, (n, pattern, last) in enumerate(spec):
+        w = np.tile(np.array(pattern, dtype=np.int64), n // len(pattern) + 1)[:n]
+        if last is not None:
+            w[-1] = last
+        e = np.cumsum(w)
+        bins += [[c, a, b] for a, b in zip((e - w).tolist(), e.tolist())]
+    return bins
+
+
+def case_bins(case):
+    return case["bins"] if "bins" in case else expand_big(case["big"])
+
+
 def all_regions(bins):
     out = []
     for c, L in enumerate(chrom_lens(bins)):
@@ -116,19 +161,29 @@ def default_pairs(nregions, k):
 
 
 def _ids(frame):
-    return [int(x) for x in frame.index]
+    idx = frame.index
+    if idx.dtype.kind in "iu":
+        return idx.tolist()
+    return [int(x) for x in idx]
 
 
 def _spans(frame):
-    return [[int(a), int(b)] for a, b in zip(frame["start"].values.tolist(), frame["end"].values.tolist())]
+    a, b = frame["start"].values, frame["end"].values
+    if a.dtype.kind in "iu" and b.dtype.kind in "iu":
+        return [list(t) for t in zip(a.tolist(), b.tolist())]
+    return [[int(x), int(y)] for x, y in zip(a.tolist(), b.tolist())]
 
 
 def _rows(frame, names):
-    return [[names.index(str(c)), int(s), int(e)] for c, s, e in zip(frame["chrom"], frame["start"], frame["end"])]
+    cid = {n: i for i, n in enumerate(names)}
+    return [[cid[c], s, e] if c in cid else [names.index(c), s, e]
+            for c, (s, e) in zip(frame["chrom"].astype(str).tolist(), _spans(frame))]
 
 
 def _forms(name, s, e, L):
     f = [("tuple", (name, s, e)), ("ucsc", f"{name}:{s}-{e}")]
+    if e >= 1000:
+        f.append(("ucsc-commas", f"{name}:{s:,}-{e:,}"))   # 'chr5:10,100,000-30,000,000' as in parse_region_string's docstring
     if e == L:
         f.append(("open", (name, s, None)))
         f.append(("ucsc-open", f"{name}:{s}-"))
@@ -167,18 +222,37 @@ def _write_layout(path, bins, pixels, layout):
 
 
 def _table(case):
-    bins, pixels = case["bins"], case["pixels"]
+    bins, pixels = case_bins(case), case["pixels"]
+    path = os.path.join(gen.tmpdir(), f"c04-{os.getpid()}.cool")
+    try:
+        group = _write_layout(path, bins, pixels, case.get("layout", "root"))
+        return _query(path, group, bins, pixels, case)
+    finally:
+        if os.path.exists(path):
+            os.unlink(path)
+
+
+def _run_or_ids(ids):
+    """a long list of consecutive ids is handed to the model as the run it is (`runOk` = `selOk` of `runIds`)"""
+    if len(ids) > 2000 and ids == list(range(ids[0], ids[-1] + 1)):
+        return dict(k="ext", lo=ids[0], hi=ids[-1] + 1)
+    return dict(k="ids", ids=ids)
+
+
+def _query(path, group, bins, pixels, case):
+    """every access path of the collection stored NOW at `path::group`, judged by Lean against the table `bins` / `pixels`"""
     stride, salt = case.get("stride", 1), case.get("salt", 0)
     nch = nchroms(bins)
     names = [gen.chromname(c) for c in range(nch)]
     regions = case.get("regions") or all_regions(bins)
-    T = drv().ask("C04.table", bins=bins, nchroms=nch, regions=regions)
+    big = len(bins) > BIG
+    # big tables: L1 == L0 (the theorems, re-evaluated) on every third region; EVERY observation below is judged by L0
+    asked = regions[::3] if big else regions
+    T = drv().ask("C04.table", bins=bins, nchroms=nch, regions=asked, brief=big)
     assert T["valid"], "generator produced an invalid segmentation"
     lens = T["lens"]
-    for r, a in zip(regions, T["regions"]):
+    for r, a in zip(asked, T["regions"]):
         assert a["ok"], f"L1 != L0 at {r}: theorems regionToExtent_ok / gsFetchAbs_ok / offset_ok / regionToExtentIdx_eq contradicted"
-    path = os.path.join(gen.tmpdir(), f"c04-{os.getpid()}.cool")
-    group = _write_layout(path, bins, pixels, case.get("layout", "root"))
     h5 = None
     cur = None
     try:
@@ -196,6 +270,11 @@ def _table(case):
         nq = 0
 
         def rec(kind, c, s, e, form, api, shown, **kw):
+            if kind == "ids":
+                kw = _run_or_ids(kw["ids"])
+                kind = kw.pop("k")
+                if kind == "ext":
+                    shown = {"ids": f"the {len(shown)} consecutive ids", "first": kw["lo"], "stop": kw["hi"]}
             obs.append(dict(k=kind, c=c, s=s, e=e, **kw))
             meta.append({"region": [c, s, e], "form": form, "api": api, "impl": shown})
 
@@ -240,11 +319,11 @@ def _table(case):
                                         "note": "returned rows are not the bin-table rows their labels name"})
                     if not heavy:
                         continue
-                    if form == "ucsc":
+                    if form in ("ucsc", "ucsc-commas"):
                         lo2, hi2 = impl(clr_uri.extent, reg)
                         nq += 1
                         rec("ext", c, s, e, form, "Cooler(path).extent", [int(lo2), int(hi2)], lo=int(lo2), hi=int(hi2))
-                    by_uri = form in ("ucsc", "ucsc-open")
+                    by_uri = form in ("ucsc", "ucsc-open", "ucsc-commas")
                     fb = impl((uri_bins if by_uri else sel_bins).fetch, reg)
                     nq += 1
                     rec("ids", c, s, e, form, "Cooler(uri).bins().fetch" if by_uri else "bins().fetch", _ids(fb), ids=_ids(fb))
@@ -312,8 +391,106 @@ def _table(case):
     finally:
         if h5 is not None:
             h5.close()
-        if os.path.exists(path):
-            os.unlink(path)
+
+
+# ---------------------------------------------------------------------------------------------
+# top: the collection at one URI is written OVER an earlier one; every answer is that of the table stored NOW
+# ---------------------------------------------------------------------------------------------
+
+WHERES = ("root", "sub", "sub+root")
+
+
+def edge_regions(bins):
+    """per chromosome: every range between two bin edges, one off-edge variant of each (an end moved one base pair in or
+    out, cycling), the whole chromosome, and an empty range on every edge and next to it"""
+    out = []
+    for c, L in enumerate(chrom_lens(bins)):
+        E = [0] + [b[2] for b in bins if b[0] == c]
+        k = 0
+        for i, a in enumerate(E):
+            for b in E[i + 1:]:
+                out.append([c, a, b])
+                da, db = ((1, 0), (0, -1), (1, 1), (-1, -1), (0, 1), (-1, 0))[k % 6]
+                k += 1
+                a2, b2 = a + da, b + db
+                if 0 <= a2 <= b2 <= L and [c, a2, b2] not in out:
+                    out.append([c, a2, b2])
+        for p_ in sorted({q for x in E for q in (x - 1, x, x + 1) if 0 <= q <= L}):
+            out.append([c, p_, p_])
+    return out
+
+
+def _stored_table(uri, names):
+    """the bin table and the pixel table as they are stored now (whole-table reads, no range query involved)"""
+    clr = cooler.Cooler(uri)
+    b = clr.bins()[:]
+    bins = [[names.index(str(c)), int(x), int(y)] for c, x, y in zip(b["chrom"], b["start"], b["end"])]
+    p = clr.pixels()[:]
+    pixels = [[int(i), int(j), int(v)] for i, j, v in zip(p["bin1_id"], p["bin2_id"], p["count"])]
+    return bins, pixels
+
+
+def _rewrite(case):
+    """steps[0] creates a collection at a URI (file root / nested group / nested group beside a different root collection);
+    every later step writes ANOTHER collection to the same URI — create_cooler(mode='a'), merge_coolers(mode='a') of two
+    coolers, coarsen_cooler (appends by default) of a finer cooler — and after every step every access path is queried"""
+    d = gen.tmpdir()
+    path = os.path.join(d, f"c04w-{os.getpid()}.cool")
+    srcs = [os.path.join(d, f"c04w-{os.getpid()}-src{i}.cool") for i in range(2)]
+    where = case["where"]
+    group = {"root": "/", "sub": "/a/res", "sub+root": "/coarse"}[where]
+    uri = path if group == "/" else f"{path}::{group}"
+    nq = 0
+    trail = []
+    k = 0
+    try:
+        for k, step in enumerate(case["steps"]):
+            bins, pixels, via = step["bins"], step.get("pixels"), step.get("via", "create")
+            if pixels is None:
+                pixels = default_pixels(bins)
+            names = [gen.chromname(c) for c in range(nchroms(bins))]
+            if k == 0:
+                assert via == "create"
+                _write_layout(path, bins, pixels, where)
+                trail.append(f"create_cooler at {where}: {len(bins)} bins")
+            elif via == "create":
+                impl(gen.write_cooler, uri, bins, pixels, symm=True, mode="a")
+                trail.append(f"create_cooler(mode='a') at the same uri: {len(bins)} bins")
+            elif via == "merge":
+                gen.write_cooler(srcs[0], bins, pixels[::2], symm=True)
+                gen.write_cooler(srcs[1], bins, pixels[:1] + pixels[1::2], symm=True)  # pixel 0 in both: summed
+                impl(cooler.merge_coolers, uri, srcs, mergebuf=step.get("mergebuf", 1000), mode="a")
+                trail.append(f"merge_coolers(mode='a') of two {len(bins)}-bin coolers onto the same uri")
+                bins, pixels = impl(_stored_table, uri, names)
+            elif via == "coarsen":
+                gen.write_cooler(srcs[0], bins, pixels, symm=True)
+                impl(cooler.coarsen_cooler, srcs[0], uri, step.get("factor", 2), step.get("chunksize", 1000))
+                trail.append(f"coarsen_cooler(factor={step.get('factor', 2)}) of a {len(bins)}-bin cooler onto the same uri")
+                bins, pixels = impl(_stored_table, uri, names)
+                if not drv().ask("C04.table", bins=bins, nchroms=nchroms(bins), regions=[])["valid"]:
+                    return {"stats": {"produced_table_not_a_segmentation": 1}}  # what coarsening stores is C08's business
+            else:
+                raise AssertionError(via)
+            q = dict(case)
+            q["salt"] = case.get("salt", 0) + k
+            q["regions"] = edge_regions(bins)
+            if k == 0 and len(case["steps"]) > 1:
+                # a fresh collection is the `table` check's subject: here a fifth of the ranges, so that whatever the library
+                # remembers about this URI has been filled in before the collection is replaced
+                q["regions"] = q["regions"][(q["salt"] % 5)::5]
+            q["pairs"] = default_pairs(len(q["regions"]), case.get("npairs", 6))
+            r = _query(path, group, bins, pixels, q)
+            if r and r.get("mismatch"):
+                return {**r, "after_step": k, "history": trail, "table_stored_now": bins}
+            nq += r["stats"]["queries"]
+        return {"stats": {"queries": nq, "steps": len(case["steps"])}}
+    except ImplRaised as ex:
+        return {"mismatch": True, "impl_raised": ex.cls, "message": ex.msg, "where": ex.where, "at_step": k, "history": trail,
+                "note": "writing a collection over an earlier one raised"}
+    finally:
+        for f in [path] + srcs:
+            if os.path.exists(f):
+                os.unlink(f)
 
 
 # ---------------------------------------------------------------------------------------------
@@ -440,18 +617,30 @@ def _bounds(case):
         os.unlink(path)
 
 
-CHECKS = {"table": _table, "extent_unit": _extent_unit, "float_division": _float_division, "bounds": _bounds}
+CHECKS = {"table": _table, "bigtable": _table, "rewrite": _rewrite, "extent_unit": _extent_unit, "float_division": _float_division, "bounds": _bounds}
 
 
 def nontrivial(name, case):
+    from collections import Counter
     if "bins" in case:
-        from collections import Counter
         return max(Counter(b[0] for b in case["bins"]).values()) >= 2
+    if "big" in case:
+        return max(n for n, _, _ in case["big"]) >= 2
+    if "steps" in case:
+        return len(case["steps"]) >= 2 and any(max(Counter(b[0] for b in st["bins"]).values()) >= 2 for st in case["steps"])
     return True
 
 
 def distribution(name, case):
-    if name == "table":
+    if name == "rewrite":
+        yield f"rewrite.where={case['where']}"
+        yield "rewrite.via=" + ">".join(st.get("via", "create") for st in case["steps"])
+    if name == "bigtable":
+        n = max(x[0] for x in case["big"])
+        yield f"tables.bins-in-a-chromosome>2^{n.bit_length() - 1}"
+        yield f"tables.kind={case.get('kind')}"
+        yield f"tables.layout={case.get('layout', 'root')}"
+    elif name == "table":
         yield f"tables.nchroms={nchroms(case['bins'])}"
         yield f"tables.{'full' if case.get('stride', 1) == 1 and not case.get('regions') else 'strided-or-sampled'}"
         yield f"tables.kind={case.get('kind', 'exhaustive')}"
@@ -498,6 +687,80 @@ def sampled_regions(rng, bins, per_chrom):
     return out
 
 
+def big_marks(n, rng):
+    """in-chromosome bin indexes at which a count of bins crosses a power of two (2^12 … 2^17: id dtypes, read buffers and
+    HDF5 chunks are sized in those) or a power of ten, both ends of the chromosome, and a few random ones"""
+    m = {1, 2, n - 2, n - 1}
+    for k in range(12, 18):
+        m |= {2 ** k - 1, 2 ** k, 2 ** k + 1}
+    for dec in (10 ** 4, 10 ** 5):
+        m |= {dec - 1, dec, dec + 1}
+    m |= {rng.randrange(1, n) for _ in range(3)} if n > 1 else set()
+    return sorted(x for x in m if 1 <= x <= n - 1)
+
+
+def big_table_case(rng, spec, kind, salt, layout):
+    """regions of a table with MANY bins: starts and ends exactly ON the bin boundaries at the marked indexes, one base pair
+    before and after them, empty ranges on them, a few ranges from / to the chromosome ends; a small pixel set around the
+    same bins; two-region fetches among the narrow ranges"""
+    bins = expand_big(spec)
+    first = [0]
+    for n, _, _ in spec:
+        first.append(first[-1] + n)
+    regions, narrow, rows = [], [], set()
+    for c, (n, _, _) in enumerate(spec):
+        st = [b[1] for b in bins[first[c]:first[c + 1]]]
+        L = bins[first[c + 1] - 1][2]
+        edge = st + [L]                              # edge[m] = start of bin m = end of bin m-1
+        regions.append([c, 0, L])
+        for m in big_marks(n, rng):
+            B = edge[m]
+            rows |= {first[c] + m - 1, first[c] + m}
+            cand = [(edge[m - 1], B), (edge[max(m - 3, 0)], B), (edge[m - 1], B + 1), (B - 1, B + 1),
+                    (B, edge[m + 1]), (B, edge[min(m + 2, n)]), (B + 1, edge[m + 1]), (B, B),
+                    (rng.randint(edge[max(m - 4, 0)], B), rng.randint(B, edge[min(m + 3, n)]))]
+            if m + 1 in (2 ** 15, 2 ** 16, 2 ** 17):   # a few long ranges ending / starting exactly on such a boundary
+                cand += [(0, B), (B, L)][(m >> 15) % 2:][:1] + [(edge[m - 5000], B)]
+            for a, z in cand:
+                if 0 <= a <= z <= L and [c, a, z] not in regions[-40:]:
+                    if z - a <= 64:
+                        narrow.append(len(regions))
+                    regions.append([c, a, z])
+    nb = len(bins)
+    cells = {(0, nb - 1)}
+    for i in sorted(rows):
+        cells |= {(i, i), (i, min(i + 1, nb - 1))}
+        if i % 3 == 0:
+            cells.add((i, min(i + 2, nb - 1)))
+        if i % 7 == 0:
+            cells.add((i, nb - 1))
+    pixels = [[i, j, 1 + (i * 31 + j * 7) % 97] for i, j in sorted(cells)]
+    pairs = [[i, i] for i in narrow[::9]] + [[narrow[(7 * i) % len(narrow)], narrow[(11 * i + 3) % len(narrow)]] for i in range(10)]
+    return {"big": spec, "pixels": pixels, "regions": regions, "pairs": pairs, "stride": 6, "salt": salt, "kind": kind,
+            "layout": layout}
+
+
+def big_specs(rng, thorough):
+    """tables with more than 2^15, 2^16, 2^17 bins in ONE chromosome: variable width, fixed width (short last bin), every bin
+    of one width but a LONGER last one (variable by get_binsize), the long chromosome first / between / after small ones"""
+    def pat():
+        return [rng.randint(1, 15) for _ in range(rng.randint(5, 9))]
+    small = lambda: [rng.randint(1, 6), pat(), None]  # noqa: E731
+    out = []
+    for k in range(14 if thorough else 3):
+        n = (2 ** 17, 2 ** 16, 2 ** 15)[k % 3] + rng.choice([2, 3, 5, 40, 1000])
+        out.append(("variable", [[small()], [], [small(), small()]][k % 3] + [[n, pat(), None]] + [[small()], [small()], []][k % 3]))
+    for k in range(6 if thorough else 2):
+        n = (2 ** 17, 2 ** 16, 2 ** 15)[k % 3] + rng.choice([2, 3, 5, 40])
+        w = rng.choice([1, 2, 10, 1000, 4096, 10000]) if k else rng.choice([10, 1000])
+        out.append(("fixed", [[n, [w], rng.randint(1, w)], [rng.randint(1, 5), [w], rng.randint(1, w)]][::1 if k % 2 else -1]))
+    for k in range(3 if thorough else 1):
+        n = (2 ** 16, 2 ** 17, 2 ** 15)[k % 3] + rng.choice([2, 3, 40])
+        w = rng.choice([2, 10, 1000])
+        out.append(("longer-last-bin", [[n, [w], w + rng.randint(1, w)], [3, [w], w]]))
+    return out
+
+
 def bounds_queries(bins):
     q = []
     for c, L in enumerate(chrom_lens(bins)):
@@ -522,8 +785,83 @@ CORPUS = [
 ]
 
 
+# tables written over one another at one URI: fixed widths b / b', shorter last bins, variable, longer last bin, one-bin
+# chromosomes, more / fewer bins and chromosomes
+REWRITE_POOL = [
+    gen.uniform_bins([12, 8], 4),                         # fixed 4
+    gen.uniform_bins([10, 7, 3], 4),                      # fixed 4, short last bins, a one-bin chromosome
+    gen.chrom_bins(0, [4, 1, 2, 3]) + gen.chrom_bins(1, [2, 2, 5]) + gen.chrom_bins(2, [3]),    # variable
+    gen.uniform_bins([9, 5], 2),                          # fixed 2, more bins
+    gen.chrom_bins(0, [2, 2, 5]) + gen.chrom_bins(1, [2, 2, 2]),                                # longer last bin: variable
+    gen.chrom_bins(0, [6]) + gen.chrom_bins(1, [3]) + gen.chrom_bins(2, [11]),                  # one-bin chromosomes only
+    gen.uniform_bins([9, 8], 3),                          # fixed 3
+    gen.chrom_bins(0, [1, 3, 1, 1, 4, 2]),                # variable, one chromosome
+]
+
+
+def rewrite_cases(rng, thorough):
+    """EVERY ordered pair (first table, table written over it) of the pool, the second written by create_cooler(mode='a') at
+    the file root and in one of the two nested places (nested group / nested group beside another root collection), and — every
+    other pair each — by merge_coolers(mode='a') / coarsen_cooler in one place (thorough: every pair, every way, all three
+    places); then seeded chains of 3-4 random tables, the way of writing drawn per step"""
+    k = 0
+    for i, first in enumerate(REWRITE_POOL):
+        for j, second in enumerate(REWRITE_POOL):
+            for via in ("create", "merge", "coarsen"):
+                if thorough:
+                    wheres = WHERES
+                elif via == "create":
+                    wheres = ("root", WHERES[1 + (i + j) % 2])
+                elif (i + j) % 2 == (via == "merge"):
+                    wheres = (WHERES[(i + j // 2) % 3],)
+                else:
+                    continue
+                for where in wheres:
+                    yield "rewrite", {"where": where, "stride": 4, "salt": k,
+                                      "steps": [{"bins": first}, {"bins": second, "via": via}]}
+                    k += 1
+    for _ in range(120 if thorough else 16):
+        steps = []
+        for t in range(rng.randint(3, 4)):
+            style = rng.choice(["uniform", "variable", "any"])
+            if style == "uniform":
+                b = rng.choice([2, 3, 5, 10])
+                bins = gen.uniform_bins([rng.randint(1, 4 * b) for _ in range(rng.randint(1, 3))], b)
+            else:
+                bins = gen.random_segmentation(rng, rng.randint(1, 3), 12)
+            st = {"bins": bins}
+            if t:
+                st["via"] = rng.choice(["create", "create", "merge", "coarsen"])
+                if st["via"] == "coarsen":
+                    st["factor"] = rng.choice([2, 3])
+            steps.append(st)
+        yield "rewrite", {"where": rng.choice(WHERES), "stride": 4, "salt": k, "steps": steps}
+        k += 1
+
+
+def _interleave(heavy, light, chunk):
+    """the pool hands out `chunk` consecutive cases to one worker: one heavy case per chunk"""
+    light = iter(light)
+    for h in heavy:
+        yield h
+        for _ in range(chunk - 1):
+            x = next(light, None)
+            if x is not None:
+                yield x
+    yield from light
+
+
 def cases(tier, rng):
     thorough = tier == "thorough"
+    # the most expensive cases first (pool load balance): tables with MANY bins
+    heavy = [("bigtable", big_table_case(rng, spec, kind, k, LAYOUTS[(k + k // 3) % 3]))
+             for k, (kind, spec) in enumerate(big_specs(rng, thorough))]
+    return _interleave(heavy, _cases(tier, rng), CHUNK)
+
+
+def _cases(tier, rng):
+    thorough = tier == "thorough"
+    yield from rewrite_cases(rng, thorough)
     for bins in CORPUS:
         small = max(chrom_lens(bins)) <= 8
         for layout in (LAYOUTS if small else ("root",)):
@@ -637,13 +975,13 @@ def _drop_chrom(bins, c):
 
 
 def shrink(name, case):
-    if name == "table":
+    if name in ("table", "bigtable"):
         r = run_check(_table, case)
         if r and "region" in r and (case.get("regions") != [r["region"]] and "region2" not in r):
             c = dict(case)
             c.update(regions=[r["region"]], stride=1, pairs=[])
             yield c
-        bins = case["bins"]
+        bins = case.get("bins") or []   # (a big table keeps its compact form: only the regions / pixels shrink)
         chroms = sorted({b[0] for b in bins})
         keep = {x[0] for x in (case.get("regions") or [])}
         for ch in chroms:
@@ -657,6 +995,29 @@ def shrink(name, case):
         if case["pixels"]:
             c = dict(case)
             c.update(pixels=[], pairs=[])
+            yield c
+        if "big" in case and case.get("regions") and not case["pixels"] and not case.get("pairs"):
+            # a table with many bins: chromosomes that hold no queried region go, one at a time
+            used = {x[0] for x in case["regions"]}
+            for ch in range(len(case["big"])):
+                if ch not in used and len(case["big"]) > 1:
+                    c = dict(case)
+                    c["big"] = [sp for i, sp in enumerate(case["big"]) if i != ch]
+                    c["regions"] = [[x[0] - (x[0] > ch), x[1], x[2]] for x in case["regions"]]
+                    yield c
+    elif name == "rewrite":
+        steps = case["steps"]
+        for i in range(len(steps) - 1, -1, -1):   # leave a step out (the first one left is then plainly created)
+            if len(steps) > 1:
+                rest = [dict(st) for j, st in enumerate(steps) if j != i]
+                if rest[0].get("via", "create") != "create":
+                    continue
+                c = dict(case)
+                c["steps"] = rest
+                yield c
+        if case["where"] != "root":
+            c = dict(case)
+            c["where"] = "root"
             yield c
     elif name in ("extent_unit", "bounds") and "bins" in case:
         bins = case["bins"]
